@@ -832,6 +832,12 @@ func pollute(r *rand.Rand) {
 func runC11Shapes(c *CaseCtx, r *rand.Rand) (res CaseResult) {
 	res.NonTrivial = true
 	shape := r.Intn(3)
+	switch (c.Idx / 25) % 5 {
+	case 1:
+		shape = 3
+	case 3:
+		shape = 4
+	}
 	res.Key = fmt.Sprintf("run-once-shape %d", shape)
 	res.obs("family.run-once-shapes", 1)
 	det := map[string]interface{}{"case": res.Key}
@@ -869,6 +875,78 @@ func runC11Shapes(c *CaseCtx, r *rand.Rand) (res CaseResult) {
 		}
 		if execs != 1 {
 			res.violate("C11", "once-reexecuted", fmt.Sprintf("run-once function without result values executed %d times over %d uses", execs, n), det)
+		}
+	case 3:
+		// a run-once function WITHOUT inputs in target position: called
+		// directly (and through the function Redefine derives from it), and
+		// used as a provider in between
+		f, err := am.NewFunc(func() T1 { execs++; return T1{ID: int64(700 + execs)} }, am.FuncOnce())
+		if err != nil {
+			res.Skip = "newfunc"
+			return res
+		}
+		callee := []*am.Func{f}
+		if rf, err := f.Redefine(); err == nil && r.Intn(2) == 0 {
+			callee = append(callee, rf)
+		}
+		var got []int64
+		cons, _ := am.NewFunc(func(b T1) { got = append(got, b.ID) })
+		n := 3 + r.Intn(3)
+		for k := 0; k < n; k++ {
+			res.Evals++
+			if r.Intn(3) == 0 {
+				if rr := cons.Call(am.ConverterFunc(f)); rr.Err() != nil {
+					res.violate("C11", "later-use-fails", "a use of the run-once provider failed: "+firstLine(errStr(rr.Err())), det)
+				}
+				continue
+			}
+			rr := pick(r, callee).Call()
+			if rr.Err() != nil || rr.Len() != 1 {
+				res.violate("C11", "later-use-fails", "a direct call of the run-once function failed: "+firstLine(errStr(rr.Err())), det)
+				continue
+			}
+			got = append(got, rr.Out(0).(T1).ID)
+		}
+		if execs != 1 {
+			res.violate("C11", "once-reexecuted", fmt.Sprintf("run-once function without inputs executed %d times over %d uses", execs, n), det)
+		}
+		for _, id := range got {
+			if id != 701 {
+				res.violate("C11", "later-execution-observed", fmt.Sprintf("a use observed #%d, the first execution produced #701", id), det)
+				break
+			}
+		}
+	case 4:
+		// the run-once *Func handed over where plain functions are taken:
+		// Converter(f), NewFuncList([f]), NewFunc(f). Whether the library
+		// refuses or accepts that, the body runs at most once overall.
+		f, err := am.NewFunc(func(a T0) T1 { execs++; return T1{ID: a.ID} }, am.FuncOnce())
+		if err != nil {
+			res.Skip = "newfunc"
+			return res
+		}
+		cons, _ := am.NewFunc(func(b T1) {})
+		n := 3 + r.Intn(3)
+		for k := 0; k < n; k++ {
+			res.Evals++
+			in := am.Typed(T0{ID: int64(k + 1)})
+			switch r.Intn(4) {
+			case 0:
+				cons.Call(in, am.Converter(f))
+			case 1:
+				if fl, err := am.NewFuncList([]interface{}{f}); err == nil && len(fl) == 1 && fl[0] != nil {
+					cons.Call(in, am.ConverterFunc(fl...))
+				}
+			case 2:
+				if g, err := am.NewFunc(f); err == nil && g != nil {
+					cons.Call(in, am.ConverterFunc(g))
+				}
+			default:
+				cons.Call(in, am.ConverterFunc(f))
+			}
+		}
+		if execs > 1 {
+			res.violate("C11", "once-reexecuted", fmt.Sprintf("run-once function executed %d times over %d uses, some of which handed the *Func over as a plain function", execs, n), det)
 		}
 	default:
 		in, _ := am.NewValueSet([]am.Value{{Name: "a", Type: types[0]}})
@@ -1293,6 +1371,106 @@ func runC15Partial(c *CaseCtx, r *rand.Rand) (res CaseResult) {
 		}
 	}
 	res.obs("error_results_loaded", 1)
+	res.Sample = det
+	return res
+}
+
+type c15SetsIn struct {
+	am.Struct
+	A T0
+	B T1
+}
+
+type c15SetsOut struct {
+	am.Struct
+	N T3
+}
+
+// runC15FromFuncSets: a function built over the Input() and Output() sets of
+// an ORDINARY function (whose parameter or result may be a struct, a pointer
+// to a struct, or positional) hands its callback the injected values and
+// delivers the callback's output to the caller and to a consumer.
+func runC15FromFuncSets(c *CaseCtx, r *rand.Rand) (res CaseResult) {
+	res.NonTrivial = true
+	shape := r.Intn(4)
+	res.Key = fmt.Sprintf("built-over-the-sets-of-an-ordinary-function shape=%d", shape)
+	res.obs("family.built-over-function-sets", 1)
+	det := map[string]interface{}{"case": res.Key}
+	defer func() {
+		if p := recover(); p != nil {
+			res.violate("C06", "panic/valueset-"+crashKey(fmt.Sprint(p)), fmt.Sprintf("panicked: %v", p), det)
+		}
+	}()
+	var fn interface{}
+	switch shape {
+	case 0:
+		fn = func(in *c15SetsIn) T3 { return T3{} }
+	case 1:
+		fn = func(in c15SetsIn) *c15SetsOut { return nil }
+	case 2:
+		fn = func(in *c15SetsIn) *c15SetsOut { return nil }
+	default:
+		fn = func(in c15SetsIn) c15SetsOut { return c15SetsOut{} }
+	}
+	orig, err := am.NewFunc(fn)
+	if err != nil {
+		res.Skip = "newfunc"
+		return res
+	}
+	namedOut := shape != 0
+	var sawA, sawB int64
+	built, err := am.BuildFunc(orig.Input(), orig.Output(), func(in, out *am.ValueSet) error {
+		sawA, _ = idOf(in.Named("a").Value)
+		sawB, _ = idOf(in.Named("b").Value)
+		v := reflect.ValueOf(T3{ID: sawA*100 + sawB})
+		if namedOut {
+			out.Named("n").Value = v
+		} else {
+			out.Typed(types[3]).Value = v
+		}
+		return nil
+	})
+	if err != nil {
+		res.violate("C15", "buildfunc-rejected", "BuildFunc rejected the value sets of an ordinary function: "+err.Error(), det)
+		return res
+	}
+	var got int64
+	var cons *am.Func
+	if namedOut {
+		cons, _ = am.NewFunc(func(in struct {
+			am.Struct
+			N T3
+		}) {
+			got = in.N.ID
+		})
+	} else {
+		cons, _ = am.NewFunc(func(n T3) { got = n.ID })
+	}
+	for k := int64(1); k <= 3; k++ {
+		a, b := 2*k, 2*k+1
+		sawA, sawB, got = -1, -1, -1
+		args := []am.Arg{am.Named("a", T0{ID: a}), am.Named("b", T1{ID: b})}
+		var rr am.Result
+		direct := r.Intn(2) == 0
+		if direct {
+			rr = built.Call(args...)
+		} else {
+			rr = cons.Call(append(args, am.ConverterFunc(built))...)
+		}
+		res.Evals++
+		det["direct"] = direct
+		if rr.Err() != nil {
+			res.violate("C15", "built-call-failed", "a function built over the value sets of an ordinary function failed: "+firstLine(errStr(rr.Err())), det)
+			break
+		}
+		if sawA != a || sawB != b {
+			res.violate("C15", "callback-args", fmt.Sprintf("the callback saw a=#%d b=#%d, injected were #%d and #%d", sawA, sawB, a, b), det)
+		}
+		if !direct && got != a*100+b {
+			res.violate("C15", "downstream-differs", fmt.Sprintf("the consumer received #%d, the callback produced #%d", got, a*100+b), det)
+		}
+		res.obs("built_over_function_sets_calls", 1)
+	}
 	res.Sample = det
 	return res
 }
